@@ -131,7 +131,11 @@ func castNodesWithTag(node Node, tag Tag, t interface{}) interface{} {
 }
 
 func DeleteNodesWithTag(node Node, tag Tag) {
-	for _, n := range node.Nodes() {
+	// Deleting shifts the remaining children, so range over a copy. Otherwise
+	// the node that follows a deleted one is skipped.
+	nodes := append(Nodes{}, node.Nodes()...)
+
+	for _, n := range nodes {
 		if n.Tag().Is(tag) {
 			node.DeleteNode(n)
 		}
